@@ -743,7 +743,8 @@ Proof.
   assert (Hs2 : s2 = apply_set s1 b).
   { subst s2. destruct d; cbn [apply_run apply_op fst]; rewrite ?Hc1; reflexivity. }
   destruct (apply_acks_keep s2 n2) as (R2 & V2 & C2 & E2 & _ & _).
-  unfold apply_get. rewrite R2, V2, C2, E2, Hs2. cbn [apply_set a_ready a_value a_cb a_ecb].
+  unfold apply_get. rewrite R2, V2, C2, E2, Hs2. unfold apply_set. rewrite R1.
+  cbn [apply_init a_ready a_value a_cb a_ecb].
   rewrite C1, E1, HC1, HE1. cbn [apply_init a_cb a_ecb a_has_cb a_has_ecb].
   destruct b; repeat split.
 Qed.
